@@ -86,7 +86,7 @@ pub fn entry_strategy() -> BoxedStrategy<EntrySpec> {
         .boxed()
 }
 
-fn err_strategy() -> BoxedStrategy<ErrSpec> {
+pub fn err_strategy() -> BoxedStrategy<ErrSpec> {
     prop_oneof![
         6 => (1i32..=133).prop_map(ErrSpec::Os),
         1 => prop_oneof![Just(4095i32), Just(4094), Just(134), Just(512), Just(1000)].prop_map(ErrSpec::Os),
@@ -136,7 +136,7 @@ fn dirents() -> BoxedStrategy<Vec<DirentSpec>> {
     .boxed()
 }
 
-fn ok_result(op: &str, max: usize) -> BoxedStrategy<MockRes> {
+pub fn ok_result(op: &str, max: usize) -> BoxedStrategy<MockRes> {
     match op {
         "LOOKUP" | "SYMLINK" | "MKNOD" | "MKDIR" | "LINK" => entry_strategy().prop_map(MockRes::Entry).boxed(),
         "GETATTR" | "SETATTR" => (stat_strategy(), val_of_width(8), nsec32()).prop_map(|(s, a, n)| MockRes::Attr(s, a, n)).boxed(),
@@ -203,7 +203,7 @@ fn strategy(tier: Tier) -> BoxedStrategy<Case> {
             val_of_width(8),
             prop_oneof![Just(0u32), Just(1), Just(23), Just(24), Just(31), Just(32), Just(4096), Just(65536), 0u32..70000],
             prop_oneof![1 => Just(None), 1 => chain_strategy().prop_map(Some)],
-            prop_oneof![4 => Just(None), 1 => (0u32..40).prop_map(Some)],
+            prop_oneof![6 => Just(None), 2 => (0u32..4).prop_map(Some), 1 => (4u32..40).prop_map(Some)],
         )
     })
     .prop_map(|(op, res, unique, size, virtio, minor)| Case { op, res, unique, size, virtio, minor })
